@@ -500,6 +500,90 @@ def component_level(v, seg, name, ref, spath, res, point):
                 res.classes['component-required-from-profile'] += 1
 
 
+def subcomponent_level(v, seg, name, ref, spath, res, point):
+    """edits below a component of complex datatype: a leaf subcomponent's datatype swapped in the profile; observed on
+    the subcomponent created by traversal, by the add_* helpers and by the parser (TOLERANT and STRICT)"""
+    from hl7apy.core import Message
+    from hl7apy.parser import parse_message
+
+    def nav(m):
+        e = m
+        for p in spath:
+            e = getattr(e, p.lower())
+        return e
+    done = 0
+    for idx, fr in tables.field_rows(v, seg):
+        if fr.kind == 'leaf' or not fr.ok:
+            continue
+        hit = None
+        for cr in fr.children:
+            if cr.kind != 'leaf' and cr.card[1] != 0:
+                subs = [x for x in cr.children if x.kind == 'leaf' and x.datatype in ('ST', 'ID', 'IS', 'NM', 'SI') and x.card[1] != 0]
+                if subs:
+                    hit = (cr, subs[0])
+                    break
+        if not hit:
+            continue
+        cr, sr = hit
+        new_dt = 'NM' if sr.datatype != 'NM' else 'ST'
+        done += 1
+        if done > 2:
+            break
+
+        def swap(c, new_dt=new_dt):
+            r = list(c[1])
+            r[2] = new_dt
+            return (c[0], tuple(r), c[2], c[3])
+        pt = dict(point, field=fr.name, component=cr.name, subcomponent=sr.name)
+        res.enumerated += 1
+        res.states += 1
+        res.nontrivial += 1
+
+        def leaf(m):
+            return getattr(getattr(getattr(nav(m), fr.name.lower()), cr.name.lower()), sr.name.lower())
+        try:
+            std0 = Message(name, version=v)
+            setattr(getattr(getattr(nav(std0), fr.name.lower()), cr.name.lower()), sr.name.lower(), '12')
+            std0.msh.msh_9 = msh9_text(v, name)
+            text = std0.to_er7()
+            eprof = {name: edit_path(ref, spath + (fr.name, cr.name, sr.name), swap)}
+            obs = {}
+            m = Message(name, version=v, reference=eprof)
+            obs['traversal-read'] = leaf(m).datatype
+            setattr(getattr(getattr(nav(m), fr.name.lower()), cr.name.lower()), sr.name.lower(), '12')
+            obs['traversal-write'] = leaf(m)[0].datatype
+            for lvl, tag in ((TOLERANT, 'parse-tolerant'), (STRICT, 'parse-strict')):
+                try:
+                    pm = parse_message(text, message_profile=eprof, validation_level=lvl)
+                    obs[tag] = leaf(pm)[0].datatype
+                except Exception as e:
+                    if lvl == STRICT and (common.is_lib_exc(e) or isinstance(e, ValueError)):
+                        obs[tag] = new_dt          # refused for reasons of its own: nothing to observe
+                        res.dims['STRICT parse of the subcomponent host refused'] += 1
+                    else:
+                        raise
+            # the field assigned as text inside a message with the profile
+            m = Message(name, version=v, reference=eprof)
+            setattr(nav(m), fr.name.lower(), getattr(nav(std0), fr.name.lower())[0].to_er7())
+            obs['text-assignment'] = leaf(m)[0].datatype
+            obs['standard'] = leaf(std0)[0].datatype
+        except Exception as e:
+            res.violation('subcomponent-edit-raises|%s|%s|%s' % (v, seg, exc_class(e)), 'subcomponent-level edit of %s.%s.%s in %s (v%s): %s: %s'
+                          % (fr.name, cr.name, sr.name, name, v, exc_class(e), e), pt, 3)
+            continue
+        res.evaluations += 6
+        res.transitions += 12
+        res.validated += 5
+        for how in ('traversal-read', 'traversal-write', 'parse-tolerant', 'parse-strict', 'text-assignment'):
+            if obs[how] != new_dt:
+                res.violation('profile-ignored|subcomponent-datatype|%s|v%s' % (how, v), '%s.%s.%s of %s (v%s, host %s): created through %s has datatype %s, the profile says %s'
+                              % (fr.name, cr.name, sr.name, seg, v, name, how, obs[how], new_dt), pt, 3)
+            else:
+                res.classes['subcomponent-datatype-from-profile:' + how] += 1
+        if obs['standard'] != sr.datatype:
+            res.violation('standard-affected|subcomponent-datatype|%s' % v, 'standard run shows %s for %s' % (obs['standard'], sr.name), pt, 3)
+
+
 def msh9_text(v, name):
     parts = (name.split('_') + ['A01', ''])[:2]
     n = len(dict(tables.field_rows(v, 'MSH'))[9].children)
@@ -620,6 +704,7 @@ def field_unit(v, seg, res):
             except Exception:
                 res.dims['strict value path not buildable'] += 1
     component_level(v, seg, name, ref, spath, res, point)
+    subcomponent_level(v, seg, name, ref, spath, res, point)
     res.dims['segments (field level)'] += 1
 
 
